@@ -205,6 +205,9 @@ class H2Protocol:
             stream_ids = list(self.streams.keys())
             for stream_id in stream_ids:
                 await self._close_stream(stream_id)
+            # Nothing more can be sent, release any sends waiting on flow control
+            for stream_buffer in self.stream_buffers.values():
+                await stream_buffer.close()
             await self.has_data.set()
 
     async def stream_send(self, event: StreamEvent) -> None:
@@ -284,6 +287,9 @@ class H2Protocol:
                     pass
             elif isinstance(event, h2.events.StreamReset):
                 await self._close_stream(event.stream_id)
+                if event.stream_id in self.stream_buffers:
+                    # Release any send waiting on flow control
+                    await self.stream_buffers[event.stream_id].close()
                 await self._window_updated(event.stream_id)
             elif isinstance(event, h2.events.WindowUpdated):
                 await self._window_updated(event.stream_id)
